@@ -79,7 +79,7 @@ fn gen(rng: &mut Rng, tier: Tier) -> Vec<Case> {
         let mut h = gen_hist(rng, n, 20, false, true, 0);
         // every sixth case sits at the top of the coordinate type, every seventh has a catch-all interval
         let top = i % 6 == 5;
-        if top { h.lift_to_top(rng.below(3)); }
+        if top { h.lift_to_top(rng.below(4)); }
         if i % 7 == 6 { h.init.push((if rng.chance(1, 2) { 0 } else { h.min_start() }, u64::MAX - rng.below(2), 4040)); }
         let a = around(&h.endpoints());
         let k = rng.range(1, 8) as usize;
@@ -102,7 +102,7 @@ fn gen(rng: &mut Rng, tier: Tier) -> Vec<Case> {
         if rng.chance(1, 2) { h.init.push((base, base + 9000, 9999)); } // one huge interval over many small ones
         if rng.chance(1, 3) { for k in 0..6 { h.init.push((base + 100, base + 101 + k * 3, 5000 + k)); } } // equal starts, growing stops
         let top = base == 0 && rng.chance(1, 4);
-        if top { h.lift_to_top(rng.below(3)); }
+        if top { h.lift_to_top(rng.below(4)); }
         if rng.chance(1, 8) { h.init.push((0, u64::MAX - rng.below(2), 4040)); } // catch-all interval
         let a = around(&h.endpoints());
         let k = rng.range(2, 40) as usize;
